@@ -87,8 +87,8 @@ class Types:
                         seen_calls.add(key)
                         self._raw_calls.append((m, n, body))
                         f = n.func
-                        if not isinstance(f, (ast.Name, ast.Attribute)):
-                            for ci in self.callee_classes(f, m.cls.module):
+                        if not isinstance(f, ast.Name) and not (isinstance(f, ast.Attribute) and not (isinstance(f.value, ast.Name) and f.value.id in ("cls", "self") and self._class_valued(m.cls, f.attr))):
+                            for ci in self.callee_classes(f, m.cls.module, m.cls):
                                 self._ctor_sites.setdefault(ci.qual, []).append((m, n))
                         if isinstance(f, ast.Name):
                             ci = self.repo.resolve_class(m.cls.module, f.id)
@@ -166,13 +166,44 @@ class Types:
                     loc[target.elts[1].id] = self._elem(self.expr_type(it.args[0], ctx, fn, loc))
                 return
 
-    def callee_classes(self, f: ast.expr, mod) -> List[ClassInfo]:
-        """Classes a callee expression may denote: Name, IfExp of names, {..}.get(k, D)."""
+    def _class_valued(self, owner: ClassInfo, name: str) -> bool:
+        """`self.<name>` / `cls.<name>` is a property whose value is a class (used as a callee: `self._collator_cls(...)`)."""
+        hm = self.repo.lookup(owner, name)
+        if hm is None or hm.kind not in ("lazyproperty", "property"):
+            return False
+        return bool(self.callee_classes(ast.Attribute(value=ast.Name(id="self", ctx=ast.Load()), attr=name, ctx=ast.Load()), owner.module, owner))
+
+    def callee_classes(self, f: ast.expr, mod, owner: Optional[ClassInfo] = None, _depth: int = 0) -> List[ClassInfo]:
+        """Classes a callee expression may denote: Name, IfExp of names, {..}.get(k, D), and - when the class the
+        expression occurs in is given - a class-valued private helper `cls._pick(...)` / `self._pick_cls`."""
+        if owner is not None and _depth < 4:
+            target = None
+            if isinstance(f, ast.Call) and isinstance(f.func, ast.Attribute) and isinstance(f.func.value, ast.Name) and f.func.value.id in ("cls", "self"):
+                target = f.func.attr
+            elif isinstance(f, ast.Attribute) and isinstance(f.value, ast.Name) and f.value.id in ("cls", "self"):
+                target = f.attr
+            if target is not None:
+                hm = self.repo.lookup(owner, target)
+                if hm is not None:
+                    try:
+                        hb = SUMMARIZER.summarize(hm.node)
+                    except RecursionError:  # pragma: no cover
+                        return []
+                    out: List[ClassInfo] = []
+                    stack = [hb]
+                    while stack:
+                        x = stack.pop()
+                        if isinstance(x, ast.IfExp):
+                            stack += [x.body, x.orelse]
+                        else:
+                            out += self.callee_classes(x, hm.cls.module, hm.cls, _depth + 1)
+                    return out
+                return []
         if isinstance(f, ast.Name):
             ci = self.repo.resolve_class(mod, f.id)
             return [ci] if ci is not None else []
         if isinstance(f, ast.IfExp):
-            return self.callee_classes(f.body, mod) + self.callee_classes(f.orelse, mod)
+            return self.callee_classes(f.body, mod, owner, _depth) + self.callee_classes(f.orelse, mod, owner, _depth)
         if (
             isinstance(f, ast.Call)
             and isinstance(f.func, ast.Attribute)
@@ -194,8 +225,8 @@ class Types:
 
     def call_type(self, e: ast.Call, ctx: ClassInfo, fn: Optional[Member], locals_) -> TypeSet:
         f = e.func
-        if not isinstance(f, (ast.Name, ast.Attribute)):
-            cs = self.callee_classes(f, ctx.module)
+        if not isinstance(f, ast.Name) and not (isinstance(f, ast.Attribute) and not (isinstance(f.value, ast.Name) and f.value.id in ("cls", "self") and self._class_valued(ctx, f.attr))):
+            cs = self.callee_classes(f, ctx.module, ctx)
             if cs:
                 return frozenset(cs)
         if isinstance(f, ast.Name):
